@@ -322,8 +322,11 @@ def _main(pid, tier, seed, args, t0):
             canaries["expected"] += 1
             if "refuted" in sts:
                 canaries["refuted"] += 1
-            else:
+            elif "proved" in sts:
                 broken.append(f"{r['name']}: canary '{lab}' was not refuted on any path (executor proves a false claim)")
+            else:
+                # neither refuted nor proved (solver budget on a loaded machine): vacuity is not established
+                canaries["undecided"] = canaries.get("undecided", 0) + 1
         for o in real:
             solver_time += o["time_s"]
             by_backend[o["backend"]] = by_backend.get(o["backend"], 0) + 1
@@ -445,7 +448,7 @@ def _main(pid, tier, seed, args, t0):
         "functions_under_contract": functions,
         "backends": by_backend,
         "solver_time_s": round(solver_time, 3),
-        "vacuity": {"canaries_expected": canaries["expected"], "canaries_refuted": canaries["refuted"]},
+        "vacuity": {"canaries_expected": canaries["expected"], "canaries_refuted": canaries["refuted"], "canaries_undecided": canaries.get("undecided", 0)},
         "mutants": mutants_report,
         "undecided": undecided,
         "out_of_reach": unsupported,
@@ -527,6 +530,7 @@ def run_mutants(pid, cds, muts, timeout_ms, jobs, base_results):
     for ti, (m, name, expect, new, idxs) in enumerate(tasks):
         killed_by = []
         demoted = []
+        unknowns = []
         for r in per.get(ti, []):
             if r["status"] != "ok":
                 if r["name"] not in base_unsup:
@@ -535,7 +539,10 @@ def run_mutants(pid, cds, muts, timeout_ms, jobs, base_results):
             for o in r["obligations"]:
                 if o["kind"] != "canary" and o["status"] == "refuted" and (r["name"], o["label"]) not in base_bad:
                     killed_by.append(o["id"])
-        outcome = "killed" if killed_by else ("out-of-reach" if demoted else "survived")
+                elif o["kind"] != "canary" and o["status"] not in ("proved", "refuted"):
+                    unknowns.append(o["id"])
+        # a mutant whose obligations could not be decided (solver budget, loaded machine) is NOT a surviving mutant
+        outcome = "killed" if killed_by else ("out-of-reach" if demoted else ("undecided" if unknowns else "survived"))
         report.append({"name": name, "expect": expect, "outcome": outcome, "killed_by": killed_by[:3], "demoted": demoted[:2]})
     return report
 
